@@ -10,9 +10,12 @@ EXPLANATION = (
     "snapshot field from the live object and restore_tenant_from_snapshot / restore_pipeline_from_snapshot read every "
     "snapshot field back (name, api_key, quota, usage, pipelines; id, name, source, status), status flowing into the "
     "restored pipeline. (c) R-ORDER in the store writers: the tenant snapshot is put before the index is updated, and the "
-    "snapshot is deleted before the index entry is removed, so the index never names a tenant that was not written."
+    "snapshot is deleted before the index entry is removed, so the index never names a tenant that was not written. "
+    "(d) That order lets a crash leave an index entry whose snapshot is already gone: recover() must skip such an entry — "
+    "no helper that turns a missing `tenant:<id>` key into an error may have its error flow to recover()'s return. "
+    "(e) serde attribute symmetry on TenantSnapshot and its nested types."
 )
-DECIDED = ["every acknowledged pipeline mutation is followed by a persist before the reply", "snapshot <-> live object field coverage", "snapshot-before-index ordering"]
+DECIDED = ["every acknowledged pipeline mutation is followed by a persist before the reply", "snapshot <-> live object field coverage", "snapshot-before-index ordering", "recovery tolerates the dangling index entry that the delete order can leave", "snapshot types round-trip through serde"]
 NOT_DECIDED = ["store I/O failures (persist_if_needed only logs them)", "crash between the snapshot put and the index put (in-flight operation may be missing or present by the statement)"]
 
 T = "varpulis_runtime::tenant::"
